@@ -7,10 +7,10 @@ CONSTANT Full     \* TRUE: the whole grid; FALSE: the quick sub-grid
 
 P(segs, ts) == [segs |-> segs, ts |-> ts]
 GridPathsFull == {P(s, t) : s \in {<<>>, <<"a">>, <<"A">>, <<".", "a">>, <<"b", "..", "a">>, <<"a", "b">>, <<"a", "b", "..">>,
-                                  <<"a", "B">>, <<"b">>, <<"a", "inbox">>}, t \in BOOLEAN}
+                                  <<"a", "B">>, <<"b">>, <<"a", "inbox">>, <<".">>, <<"a", "..">>}, t \in BOOLEAN}      \* "/." and "/a/.." are the root too
 GridPathsQuick == {P(<<>>, FALSE), P(<<>>, TRUE), P(<<"a">>, FALSE), P(<<"A">>, TRUE), P(<<".", "a">>, FALSE),
                    P(<<"b", "..", "a">>, TRUE), P(<<"a", "b">>, FALSE), P(<<"a", "b", "..">>, FALSE), P(<<"a", "B">>, TRUE),
-                   P(<<"b">>, FALSE)}
+                   P(<<"b">>, FALSE), P(<<".">>, FALSE), P(<<"a", "..">>, TRUE)}
 KVr(k, v) == [k |-> k, v |-> v]
 Q(raw, ps) == [raw |-> raw, ps |-> ps]
 GridQueries == {Q(FALSE, <<>>), Q(TRUE, <<>>), Q(TRUE, <<KVr("x", "1")>>), Q(TRUE, <<KVr("x", "1"), KVr("y", "2")>>),
